@@ -131,8 +131,21 @@ fn strategy() -> impl Strategy<Value = Case> {
 	cfg.max_side = 14;
 	cfg.heavy_payloads = false;
 	cfg.adverts = vec![Advert::Tight, Advert::Loose(1)];
-	(gen::set_spec(cfg), 0usize..5, proptest::option::of(any::<u32>()), 0usize..5, prop::bool::weighted(0.15)).prop_flat_map(|(mut spec, s, enc, t, chunky)| {
+	(gen::set_spec(cfg), 0usize..5, proptest::option::of(any::<u32>()), 0usize..5, prop::bool::weighted(0.15), prop::bool::weighted(0.012)).prop_flat_map(|(mut spec, s, enc, t, chunky, big)| {
 		spec.pay = Pay::CoordText;
+		let chunky = chunky && !big;
+		if big {
+			// more than 16384 tiles on one level (PMTiles leaf directories, several versatiles blocks)
+			let l = &mut spec.levels[0];
+			l.z = l.z.clamp(8, 20);
+			let size = vt::model::Coord::size(l.z);
+			l.w = 130;
+			l.h = 130;
+			l.x0 = (l.x0 as u64).min(size - 130) as u32;
+			l.y0 = (l.y0 as u64).min(size - 130) as u32;
+			l.shape = vt::model::Shape::Dense;
+			spec.levels.truncate(1);
+		}
 		if chunky {
 			// tiles of 6-9 KB in rectangles of at least 12 x 12: a selection of few columns leaves more
 			// than 32 KiB of unselected data between selected tiles (chunked reads of the sources)
@@ -170,6 +183,8 @@ fn labels(case: &Case, exp: &BTreeMap<Coord, (Vec<u8>, Sel)>, obs: &mut Obs) {
 	obs.label_if(n_in > 0 && n_out > 0, "selection-cuts-coverage");
 	obs.label_if(n_in == 0, "nothing-selected");
 	obs.label_if(matches!(case.spec.pay, Pay::Random { .. }), "tiles-of-6-9KB");
+	obs.label_if(exp.len() > 16384, "more-than-16384-tiles");
+	obs.label_if(n_in > 16384, "more-than-16384-tiles-selected");
 	obs.label_if(matches!(case.spec.pay, Pay::Random { .. }) && case.source == Target::Versatiles && n_in > 0 && n_out > 0, "versatiles-source-with-6-9KB-tiles-cut-by-the-selection");
 	let moved = exp.len() >= 2 && (o.flip_y || o.swap_xy);
 	obs.nontrivial(exp.len() >= 2 && ((o.flip_y && o.swap_xy) || (o.bbox.is_some() && n_in > 0 && n_out > 0)) && (moved || o.bbox.is_some()));
